@@ -481,3 +481,42 @@ Proof.
     + intros H. exists (m i). apply get_by_path_committed; assumption.
     + intros _ L. apply get_by_path_free, L.
 Qed.
+
+Lemma purged_not_found_lemma gm t p ces i :
+  WellFormedRepo t -> names_unique t = true -> c19 t = false ->
+  In (p, ces) (walk t) -> In i (root_id (p, ces)) ->
+  Permutation (listed_ids (list_objects gm (remove_at t p) None))
+              (filter (fun j => negb (bytes_eqb j i)) (committed_ids t)) /\
+  scan_for_inventory (remove_at t p) i = NotFound /\
+  (forall j, j <> i -> In j (committed_ids t) -> exists p', scan_for_inventory (remove_at t p) j = Found p' j) /\
+  get_inventory_by_path (remove_at t p) i p = NotFound.
+Proof.
+  intros W U K Hin Hi. unfold c19 in K. apply orb_false_iff in K as [K1 K2].
+  split; [|split; [|split]].
+  - rewrite (purged_listing t p ces i W U K1 Hin Hi gm). apply Permutation_refl.
+  - apply (purged_scan t p ces i W U K1 Hin Hi K2).
+  - apply (purged_scan t p ces i W U K1 Hin Hi K2).
+  - apply get_by_path_free, lookup_removed.
+    apply (walk_gen_paths_nonempty true t (p, ces) Hin).
+Qed.
+
+Lemma staged_listing_exact_lemma gm s :
+  WellFormedRepo s -> c19_root_named_extensions s = false ->
+  Permutation (listed_ids (list_staged_objects gm s None)) (committed_ids s) /\
+  NoDup (listed_ids (list_staged_objects gm s None)) /\
+  listed_errors (list_staged_objects gm s None) = [].
+Proof. unfold list_staged_objects. apply listing_exact. Qed.
+
+Lemma staged_listing_glob_lemma gm s g :
+  WellFormedRepo s -> c19 s = false ->
+  Permutation (listed_ids (list_staged_objects gm s (Some g))) (filter (gm g) (committed_ids s)) /\
+  listed_errors (list_staged_objects gm s (Some g)) = [].
+Proof. unfold list_staged_objects. apply listing_glob_lemma. Qed.
+
+Lemma get_by_layout_path_lemma m t i :
+  names_unique t = true -> Placed m t ->
+  (In i (committed_ids t) -> get_inventory_by_path t i (m i) = Found (m i) i) /\
+  (lookup_path t (m i) = None -> get_inventory_by_path t i (m i) = NotFound).
+Proof.
+  intros U P. split; [exact (get_by_path_committed m t i U P)| exact (get_by_path_free t i (m i))].
+Qed.
